@@ -220,7 +220,7 @@ func (e *Engine) intrinsic(name string, fn *ssa.Function) (handler, bool) {
 		if h, ok := e.syncIntrinsic(name, fn); ok {
 			return h, true
 		}
-		if strings.HasPrefix(name, "(*sync.Map)") || strings.HasPrefix(name, "(*sync.Pool)") {
+		if strings.HasPrefix(name, "(*sync.Map)") {
 			return nil, false // executed / unsupported
 		}
 	case pkg == "sync/atomic":
